@@ -60,6 +60,7 @@ func ConvertToParagraph(incoming interface{}) (*Paragraph, error) {
 func convertToParagraph(data reflect.Value) (*Paragraph, error) {
 	order := []string{}
 	values := map[string]string{}
+	omitted := map[string]bool{}
 
 	if data.Type().Kind() != reflect.Struct {
 		return nil, fmt.Errorf("Can only Decode a Struct")
@@ -96,6 +97,7 @@ func convertToParagraph(data reflect.Value) (*Paragraph, error) {
 
 		required := fieldType.Tag.Get("required") == "true"
 		if data == "" && !required {
+			omitted[paragraphKey] = true
 			continue
 		}
 
@@ -107,6 +109,20 @@ func convertToParagraph(data reflect.Value) (*Paragraph, error) {
 		values[paragraphKey] = data
 	}
 	para := foundParagraph.Update(Paragraph{Order: order, Values: values})
+
+	/* A field of the struct that is now empty must not come back from the
+	 * embedded Paragraph with the value it had when it was read. */
+	if len(omitted) > 0 {
+		kept := para.Order[:0]
+		for _, key := range para.Order {
+			if omitted[key] {
+				delete(para.Values, key)
+				continue
+			}
+			kept = append(kept, key)
+		}
+		para.Order = kept
+	}
 	return &para, nil
 }
 
